@@ -13,7 +13,7 @@
    Executable definitions only. *)
 From Coq Require Import List ZArith QArith Qabs Bool Arith.
 Import ListNotations.
-From PP Require Import Lib.RowLin.
+From PP Require Import Lib.RowLin Lib.SumF Lib.RowInv.
 Local Open Scope Q_scope.
 
 (* ------------------------------------------------------------------ A. dense matrices *)
@@ -75,11 +75,42 @@ Definition sym_close (tol : Q) (n : nat) (M : mat) : bool :=
   forallb (fun i => forallb (fun j =>
      Qle_bool (Qabs (ent M i j - ent M j i)) (tol * (1 + Qabs (ent M i j)))) (seq 0 n)) (seq 0 n).
 
+(* n rows of length n *)
+Definition wf_b (n : nat) (M : mat) : bool :=
+  (length M =? n) && forallb (fun r => length r =? n) M.
+
 Definition mass_ok (tol : Q) (n : nat) (M : mat) : bool :=
-  sym_close tol n M && spd_chk n (sympart n M).
+  wf_b n M && sym_close tol n M && spd_chk n (sympart n M).
 
 (* Gram form  x^T (B^T W B) x  written as  (B x)^T W (B x) *)
 Definition gram_quad (W B : mat) (x : list Q) : Q := quad W (mulmv B x).
+
+(* the matrix B^T W B itself (B : m x n, W : m x m), the identity, shapes, entrywise closeness *)
+Definition gram_mat (n m : nat) (W B : mat) : mat :=
+  map (fun i => map (fun j =>
+         Qred (sumf m (fun k => sumf m (fun l => ent B k i * ent W k l * ent B l j))))
+       (seq 0 n)) (seq 0 n).
+
+Definition idmat (m : nat) : mat :=
+  map (fun i => map (fun j => if Nat.eqb i j then 1 else 0) (seq 0 m)) (seq 0 m).
+
+Definition wfr_b (m n : nat) (B : mat) : bool :=
+  (length B =? m) && forallb (fun r => length r =? n) B.
+
+Definition mat_close (tol : Q) (n : nat) (X Y : mat) : bool :=
+  forallb (fun i => forallb (fun j =>
+     Qle_bool (Qabs (ent X i j - ent Y i j)) (tol * (1 + Qabs (ent Y i j)))) (seq 0 n)) (seq 0 n).
+
+(* one local RT0 mass matrix A (n x n, n = dim+1 faces) with its factors captured from
+   RT0.massHdiv:  B = N C  (m x n, m = dim (dim+1)),  W = HB * inv_K_exp  (m x m) *)
+Record local := mk_local { l_n : nat; l_m : nat; l_A : mat; l_W : mat; l_B : mat }.
+
+Definition local_ok (tol : Q) (L : local) : bool :=
+  wfr_b (l_m L) (l_n L) (l_B L)
+  && mass_ok tol (l_m L) (l_W L)                                             (* W positive definite *)
+  && spd_chk (l_n L) (gram_mat (l_n L) (l_m L) (idmat (l_m L)) (l_B L))      (* B^T B PD: B injective *)
+  && wf_b (l_n L) (l_A L)
+  && mat_close tol (l_n L) (l_A L) (gram_mat (l_n L) (l_m L) (l_W L) (l_B L)). (* A = B^T W B *)
 
 (* ------------------------------------------------------------------ B. the saddle-point system *)
 Record inst := mk_inst {
@@ -91,7 +122,11 @@ Record inst := mk_inst {
   i_finc : list (list (nat * Q));      (* per face: (cell, sign) = rows of sd.cell_faces *)
   i_rows : list row;                   (* rows of [A | -b_0 -b_1 -b_2 -b_3], A from assemble_matrix_rhs,
                                           b_m = its right-hand side for the basis pressure m *)
-  i_mass : mat                         (* dense mass matrix *)
+  i_mass : mat;                        (* dense mass matrix *)
+  i_xs : list Q;                       (* node abscissae of a 1-D grid along the x axis discretised by
+                                          RT0 (execution tie of the 1-D model); [] otherwise *)
+  i_inv : option (mat * Q);            (* optional certificate (N, d): N * A = d * I for the assembled matrix *)
+  i_locals : list local                (* RT0: the local mass matrices with their captured factors *)
 }.
 
 Definition coord (pts : list (list Q)) (p l : nat) : Q := nth l (nth p pts []) 0.
@@ -146,9 +181,69 @@ Definition shape_ok (I : inst) : bool :=
   && (length (i_fc I) =? i_nf I) && (length (i_finc I) =? i_nf I)
   && (length (i_rows I) =? i_nf I + i_nc I) && (length (i_mass I) =? i_nf I).
 
+(* ------------------------------------------------------------------ D. RT0 on an interval partition.
+   Transcription of RT0.discretize + DualElliptic.assemble_matrix_rhs for sd.dim = 1 on a grid
+   along the x axis (faces = nodes x_0 .. x_n, cells = intervals, every boundary face Dirichlet):
+   massHdiv with HB = [[2,1],[1,2]]/6, N = [[0,d],[-d,0]] (d = +-h), signs (-1,+1) gives the local
+   mass matrix (h/k) [[1/3,1/6],[1/6,1/3]]; div = -cell_faces^T has +1 at the left face and -1 at
+   the right face of a cell; rhs = -sign * bc_value on the two boundary faces. *)
+Definition xn (xs : list Q) (i : nat) : Q := nth i xs 0.
+Definition hlen (xs : list Q) (c : nat) : Q := xn xs (S c) - xn xs c.
+Definition ncell (xs : list Q) : nat := pred (length xs).
+
+Definition rt0_flux_row (xs : list Q) (k : Q) (f : nat) : row :=
+  let n := ncell xs in
+  (if 0 <? f then [(pred f, hlen xs (pred f) / (6 * k)); (f, hlen xs (pred f) / (3 * k))] else [])
+  ++ (if f <? n then [(f, hlen xs f / (3 * k)); (S f, hlen xs f / (6 * k))] else [])
+  ++ (if f <? n then [((S n + f)%nat, 1)] else [])
+  ++ (if 0 <? f then [((S n + pred f)%nat, -(1))] else []).
+
+Definition rt0_cell_row (c : nat) : row := [(c, 1); (S c, -(1))].
+
+(* right-hand side entry i for boundary pressures pb0 (at x_0) and pbn (at x_n) *)
+Definition rt0_rhs (xs : list Q) (pb0 pbn : Q) (i : nat) : Q :=
+  if i =? 0 then pb0 else if i =? ncell xs then - pbn else 0.
+
+(* row i of the assembled system, i < 2n+1 *)
+Definition rt0_row (xs : list Q) (k : Q) (i : nat) : row :=
+  if i <? S (ncell xs) then rt0_flux_row xs k i else rt0_cell_row (i - S (ncell xs)).
+
+(* exact candidate for p(x) = a x + c0: flux -k a on every face, mid-point pressures *)
+Definition rt0_cand (xs : list Q) (k a c0 : Q) : vec := fun j =>
+  if j <? S (ncell xs) then - k * a
+  else a * ((xn xs (j - S (ncell xs)) + xn xs (S (j - S (ncell xs)))) / 2) + c0.
+
+(* execution tie: the real rows [A | -b_x -b_y -b_z -b_1] against the model *)
+Definition rt0_model_row (xs : list Q) (k : Q) (i : nat) : row :=
+  let N := (S (ncell xs) + ncell xs)%nat in
+  rt0_row xs k i
+  ++ [(N, - rt0_rhs xs (xn xs 0) (xn xs (ncell xs)) i); ((N + 3)%nat, - rt0_rhs xs 1 1 i)].
+
+Definition agree_1d (tol : Q) (xs : list Q) (k : Q) (impl : list row) : bool :=
+  let N := (S (ncell xs) + ncell xs)%nat in
+  (1 <=? ncell xs) && (length impl =? N)
+  && forallb (fun i => forallb (fun j =>
+        near tol (Qabs (coef (nth i impl []) j)) (coef (nth i impl []) j)
+             (coef (rt0_model_row xs k i) j)) (seq 0 (N + 4))) (seq 0 N).
+
+Definition tie_1d_ok (tol : Q) (I : inst) : bool :=
+  match i_xs I with
+  | [] => true
+  | xs => (S (ncell xs) =? i_nf I) && (ncell xs =? i_nc I)
+          && agree_1d tol xs (nth 0 (nth 0 (i_K I) []) 0) (i_rows I)
+  end.
+
+Definition inv_cert_ok (I : inst) : bool :=
+  match i_inv I with
+  | None => true
+  | Some Nd => inv_ok (i_nf I + i_nc I) (i_rows I) (fst Nd) (snd Nd)
+  end.
+
 Definition check (tol : Q) (I : inst) : bool :=
-  shape_ok I && mass_ok tol (i_nf I) (i_mass I) && resid_ok tol I && consist_ok tol I.
+  shape_ok I && mass_ok tol (i_nf I) (i_mass I) && resid_ok tol I && consist_ok tol I
+  && tie_1d_ok tol I && inv_cert_ok I && forallb (local_ok tol) (i_locals I).
 
 Definition check_diag (tol : Q) (I : inst) :=
-  (shape_ok I, sym_close tol (i_nf I) (i_mass I), spd_chk (i_nf I) (sympart (i_nf I) (i_mass I)),
-   resid_ok tol I, consist_ok tol I).
+  (shape_ok I, wf_b (i_nf I) (i_mass I) && sym_close tol (i_nf I) (i_mass I),
+   spd_chk (i_nf I) (sympart (i_nf I) (i_mass I)),
+   resid_ok tol I, consist_ok tol I, tie_1d_ok tol I, inv_cert_ok I, forallb (local_ok tol) (i_locals I)).
